@@ -184,6 +184,8 @@ pub fn model_paths(p: &Params, depth: usize) -> (Vec<Vec<HEv>>, usize) {
 pub struct Placement {
     pub conn_worker: Vec<u8>,
     pub torrent_worker: Vec<u8>,
+    /// clients connect over IPv6 (::1): peers6 in the replies
+    pub v6: bool,
 }
 
 pub struct Tracker {
@@ -255,7 +257,8 @@ pub fn replay(trk: &Tracker, p: &Params, path: &[HEv], ns: u64, pl: &Placement) 
         }
         // (re)open the connection if the model says it is not open
         if !was_open.contains(&(c as u8)) || conns[c].is_none() {
-            let addr = SocketAddr::new(IpAddr::V4(Ipv4Addr::LOCALHOST), trk.child.port + (pl.conn_worker[c] % trk.socket_workers) as u16);
+            let ip = if pl.v6 { IpAddr::V6(std::net::Ipv6Addr::LOCALHOST) } else { IpAddr::V4(Ipv4Addr::LOCALHOST) };
+            let addr = SocketAddr::new(ip, trk.child.port + (pl.conn_worker[c] % trk.socket_workers) as u16);
             conns[c] = HttpConn::connect(addr);
             if conns[c].is_none() {
                 return fail("http/connect-failed", "could not connect".into(), i);
@@ -327,19 +330,22 @@ pub fn replay(trk: &Tracker, p: &Params, path: &[HEv], ns: u64, pl: &Placement) 
                 };
                 let got_c = b.get("complete").and_then(|x| x.as_int());
                 let got_i = b.get("incomplete").and_then(|x| x.as_int());
-                let pe = b.get("peers").and_then(|x| x.as_bytes()).map(|x| x.to_vec());
-                let p6 = b.get("peers6").and_then(|x| x.as_bytes()).map(|x| x.len());
+                // the family of the connection carries the peers, the other list is empty
+                let (key_own, key_other, width) = if pl.v6 { ("peers6", "peers", 18) } else { ("peers", "peers6", 6) };
+                let pe = b.get(key_own).and_then(|x| x.as_bytes()).map(|x| x.to_vec());
+                let p6 = b.get(key_other).and_then(|x| x.as_bytes()).map(|x| x.len());
                 if got_c != Some(complete as i128) || got_i != Some(incomplete as i128) {
                     return fail("http/announce-counts", format!("announce reply complete/incomplete = {:?}/{:?}, a single reference tracker says {}/{}", got_c, got_i, complete, incomplete), i);
                 }
                 let mut got_peers = BTreeSet::new();
                 match pe {
-                    Some(pe) if pe.len() % 6 == 0 && p6 == Some(0) => {
-                        for ch in pe.chunks(6) {
-                            if ch[..4] != [127, 0, 0, 1] {
-                                return fail("http/announce-peer-address", format!("peer address {:?} is not the TCP source", &ch[..4]), i);
+                    Some(pe) if pe.len() % width == 0 && p6 == Some(0) => {
+                        for ch in pe.chunks(width) {
+                            let source: Vec<u8> = if pl.v6 { std::net::Ipv6Addr::LOCALHOST.octets().to_vec() } else { vec![127, 0, 0, 1] };
+                            if ch[..width - 2] != source[..] {
+                                return fail("http/announce-peer-address", format!("peer address {:?} is not the TCP source", &ch[..width - 2]), i);
                             }
-                            got_peers.insert(u16::from_be_bytes([ch[4], ch[5]]));
+                            got_peers.insert(u16::from_be_bytes([ch[width - 2], ch[width - 1]]));
                         }
                     }
                     other => return fail("http/announce-peers-shape", format!("peers / peers6 malformed: {:?} {:?}", other.map(|x| x.len()), p6), i),
@@ -421,7 +427,7 @@ fn placements(sw: u8, wm: u8, conns: u8, torrents: u8) -> Vec<Placement> {
     let mut v = Vec::new();
     for c in canon(conns, sw) {
         for t in canon(torrents, wm) {
-            v.push(Placement { conn_worker: c.clone(), torrent_worker: t });
+            v.push(Placement { conn_worker: c.clone(), torrent_worker: t, v6: false });
         }
     }
     v
@@ -432,7 +438,7 @@ static NS: AtomicU64 = AtomicU64::new(1);
 fn segmentation(trk: &Tracker, run_viol: &Mutex<Vec<(String, String)>>, thorough: bool) -> u64 {
     // one announce and one scrape, split at every byte offset into two TCP segments
     let mut n = 0;
-    let pl = Placement { conn_worker: vec![0, 0, 0], torrent_worker: vec![0, 1, 2] };
+    let pl = Placement { conn_worker: vec![0, 0, 0], torrent_worker: vec![0, 1, 2], v6: false };
     let p = Params { conns: 1, torrents: 3, max_scrape: 100, keep_alive: trk.keep_alive, scrape_variants: vec![], malformed: false };
     for kind in 0..2 {
         let ns = NS.fetch_add(1, Ordering::Relaxed);
@@ -490,7 +496,7 @@ pub fn main(args: &Args) -> ! {
         let path: Vec<HEv> = serde_json::from_value(d["path"].clone()).unwrap_or_else(|e| machinery_failure(&format!("bad path: {}", e)));
         let (sw, wm, ka, ms) = (d["socket_workers"].as_u64().unwrap_or(1) as u8, d["swarm_workers"].as_u64().unwrap_or(1) as u8, d["keep_alive"].as_bool().unwrap_or(true), d["max_scrape"].as_u64().unwrap_or(100) as usize);
         let trk = start_tracker(sw, wm, ka, ms);
-        let pl = Placement { conn_worker: serde_json::from_value(d["conn_worker"].clone()).unwrap_or(vec![0, 1, 2]), torrent_worker: serde_json::from_value(d["torrent_worker"].clone()).unwrap_or(vec![0, 1, 2]) };
+        let pl = Placement { conn_worker: serde_json::from_value(d["conn_worker"].clone()).unwrap_or(vec![0, 1, 2]), torrent_worker: serde_json::from_value(d["torrent_worker"].clone()).unwrap_or(vec![0, 1, 2]), v6: d["v6"].as_bool().unwrap_or(false) };
         let p = Params { conns: 6, torrents: 3, max_scrape: ms, keep_alive: ka, scrape_variants: vec![], malformed: true };
         let o1 = replay(&trk, &p, &path, 900_001, &pl);
         let o2 = replay(&trk, &p, &path, 900_002, &pl);
@@ -624,7 +630,8 @@ pub fn main(args: &Args) -> ! {
                 if ms == 100 {
                     let dparams = Params { conns: 6, torrents: 3, max_scrape: 100, keep_alive: ka, scrape_variants: vec![], malformed: false };
                     for (i, dp) in deep_paths.iter().enumerate() {
-                        let pl = Placement { conn_worker: (0..6u8).map(|c| (c + i as u8) % 3).collect(), torrent_worker: vec![i as u8 % 3, 1, 2] };
+                      for v6 in [false, true] {
+                        let pl = Placement { conn_worker: (0..6u8).map(|c| (c + i as u8) % 3).collect(), torrent_worker: vec![i as u8 % 3, 1, 2], v6 };
                         let o = replay(&trk, &dparams, dp, NS.fetch_add(1, Ordering::Relaxed), &pl);
                         total_requests.fetch_add(o.requests, Ordering::Relaxed);
                         total_paths.fetch_add(1, Ordering::Relaxed);
@@ -632,10 +639,11 @@ pub fn main(args: &Args) -> ! {
                             let again = replay(&trk, &dparams, dp, NS.fetch_add(1, Ordering::Relaxed), &pl);
                             if let Some((sig2, what2)) = again.violation {
                                 if sig2 == sig {
-                                    viols.lock().unwrap().push((sig2, what2, json!({"path": dp, "socket_workers": sw, "swarm_workers": wm, "keep_alive": ka, "max_scrape": ms, "conn_worker": pl.conn_worker, "torrent_worker": pl.torrent_worker, "deep": true})));
+                                    viols.lock().unwrap().push((sig2, what2, json!({"path": dp, "socket_workers": sw, "swarm_workers": wm, "keep_alive": ka, "max_scrape": ms, "conn_worker": pl.conn_worker, "torrent_worker": pl.torrent_worker, "v6": v6, "deep": true})));
                                 }
                             }
                         }
+                      }
                     }
                 }
                 if ms == 100 && (sw, wm) != (2, 3) {
